@@ -1,9 +1,17 @@
-"""C18 -- files with template or parse errors are never modified by fix.   Functions under contract:
-   sqlfluff.api.simple:fix                      (the API gate)
-   sqlfluff.cli.commands:_handle_unparsable, _stdin_fix   (the CLI gates; stdin output)
-   sqlfluff.core.linter.linting_result:LintingResult.count_tmp_prs_errors, .discard_fixes_for_lint_errors_in_files_with_tmp_or_prs_errors
-   sqlfluff.core.linter.linted_dir:LintedDir.discard_fixes_for_lint_errors_in_files_with_tmp_or_prs_errors
+"""C18 -- files with template or parse errors are never modified by fix.   Functions under contract (pyvc, symbolic):
+   sqlfluff.api.simple:fix                                   the API gate (text returned unchanged)
+   sqlfluff.core.linter.linting_result:LintingResult.count_tmp_prs_errors
+   sqlfluff.core.linter.linted_dir:LintedDir.discard_fixes_for_lint_errors_in_files_with_tmp_or_prs_errors   (also C22)
+   sqlfluff.cli.commands:_handle_unparsable                  C18 clause only: no applicable fix is left in an unparsable file
+   sqlfluff.cli.commands:_stdin_fix#stdout                   C18 clause only: stdout is the ORIGINAL text (exit codes: C22)
+   sqlfluff.core.linter.linted_file:LintedFile.persist_tree  a file without a fixable violation is never written
+   sqlfluff.core.linter.linter:Linter.lint_paths#apply-fixes-gate        REGION: no write for a file with a TMP/PRS error
+   sqlfluff.core.linter.linter:Linter.lint_fix_parsed#loop-limit-rollback REGION: saved tree returned, every fix emptied
 UI objects (formatter, click) are sinks (pyvc.ty.SINK): calls on them are no-ops on the tracked state.
+Not proofs (contracts/c18_bounded.py, labelled): EXTRA syntactic context obligations of the rollback region; BOUNDED route
+matrix (CLI stdin / CLI paths / API / lint_paths) and loop-limit matrix (non-converging custom rule, tiny runaway limits).
+NOTE for C22: contracts/c22.py imports this module and then registers ITS OWN contracts of _handle_unparsable / _stdin_fix
+(and the same assumed externals) under the same keys, which replace the C18 ones in a `./check C22` run.
 """
 from pyvc.dsl import contract, external, spec, lemma, implies, iff, inline, ref_class, rec_class
 from pyvc.ty import INT, BOOL, Text, TList, TTuple, TOpt, TDict, SINK, TOpaque
@@ -116,8 +124,29 @@ class api_fix:
         return implies(not feu and has_tmp_prs(lint_result), result == sql)
 
 
-TRUSTED = ["LintedDir counters are non-negative sums of per-file counts (counters_ok): established by LintedDir.add"]
-NOT_COVERED = []
+TRUSTED = ["LintedDir counters are non-negative sums of per-file counts (counters_ok): established by LintedDir.add",
+           "ghost counters: LintingResult.g_fixable_lint stands for num_violations(types=SQLLintError, fixable=True); LintedFile."
+           "g_unfiltered_tmp_prs for num_violations(types=TMP_PRS_ERROR_TYPES, filter_ignore=False, filter_warning=False); LintedFile."
+           "g_fixable for num_violations(fixable=True, filter_warning=False); their meaning in terms of the violation list is "
+           "LintedFile.get_violations (C20) and is exercised end to end by the bounded route matrix",
+           "LintingResult.discard_fixes_for_lint_errors_in_files_with_tmp_or_prs_errors (a loop over LintedDir's method, which IS "
+           "verified) leaves a single-file result with a TMP/PRS error without fixable lint violations (assumed contract)",
+           "region contracts: the statements before the verified range establish the declared types of the range's free variables; "
+           "for the loop-limit rollback the context (else-branch of the fix loop, save_tree = the given tree) is checked syntactically "
+           "(EXTRA rollback_context: discharged or undecided, never a violation by itself)",
+           "`stdout` in _stdin_fix is the text handed to click.echo (click.echo is a sink); the bytes really written are compared in the "
+           "bounded route matrix"]
+NOT_COVERED = ["Linter.lint_fix_parsed outside the rollback statements (rule crawling, fix application, the other loop exits: a fix that "
+               "leads back to a previous version of the file stops the loop as `stable` with the earlier fixes kept -- the property's "
+               "second sentence is read as the loop LIMIT, its anchor)",
+               "_paths_fix / do_fixes / LintingResult.persist_changes / LintedDir.persist_changes bodies: the --check route is decided by "
+               "_handle_unparsable + LintedDir.discard + persist_tree contracts and by the bounded route matrix, the glue is not under contract",
+               "Linter.lint_parsed's hand-over of lint_fix_parsed's result to LintedFile (bounded loop-limit matrix only)"]
+EXPLANATION = ("Contract-based deductive verification (pyvc: VCs from the real source, z3) of the gates that keep fix/format from "
+               "touching input with a templating/parsing error (API, CLI stdin, CLI gate, lint_paths gate, the write in persist_tree) and "
+               "of the loop-limit rollback; two of these are region contracts (a statement range of a long function, extracted "
+               "mechanically on every run).  The end-to-end behaviour through every route and the rollback's context are additionally "
+               "checked by labelled bounded runs / syntactic obligations (not counted as proved).")
 MUTANTS = [
     ("api_gate_filtered_count", "sqlfluff/api/simple.py", "        total_errors, _ = result.count_tmp_prs_errors()\n        if total_errors > 0:", "        _, total_errors = result.count_tmp_prs_errors()\n        if total_errors > 0:"),
     ("api_gate_inverted", "sqlfluff/api/simple.py", "    if not fix_even_unparsable:\n        # If fix_even_unparsable wasn't set", "    if fix_even_unparsable:\n        # If fix_even_unparsable wasn't set"),
@@ -250,4 +279,294 @@ MUTANTS += [
     ("warnings_counted_again", "sqlfluff/core/linter/linted_dir.py", "                            if not v_dict.get(\"warning\"):\n                                self.num_unfixable_lint_errors += 1", "                            self.num_unfixable_lint_errors += 1"),
     ("discard_skips_last_violation", "sqlfluff/core/linter/linted_dir.py", "                    for violation in linted_file.violations:\n                        if isinstance(violation, SQLLintError):", "                    for violation in linted_file.violations[:-1]:\n                        if isinstance(violation, SQLLintError):"),
     ("discard_keyed_on_filtered_count", "sqlfluff/core/linter/linted_dir.py", "        if self.num_unfiltered_tmp_prs_errors:\n            # Filter serialised", "        if self.num_tmp_prs_errors:\n            # Filter serialised"),
+]
+
+
+# ------------------------------------------------------------------ the CLI gate and the stdin route (fix - / format -)
+# C18-specific contracts of _handle_unparsable and _stdin_fix: ONLY the property's clause (what is written to stdout);
+# the exit-code clauses of these two functions belong to C22 (contracts/c22.py) and are not repeated here.
+from pyvc import stmts as _stmts  # noqa: E402
+
+_stmts.SINK_FUNCTIONS.update({"click.utils:echo"})
+from sqlfluff.core.errors import SQLLintError as _SQLLintError, SQLTemplaterError as _SQLTemplaterError  # noqa: E402
+
+
+@spec
+def c18_single_file(r):
+    """the stdin route lints exactly one (virtual) file"""
+    return len(r.paths) == 1 and len(r.paths[0].files) == 1
+
+
+@spec
+def c18_types_lint(types):
+    return types is _SQLLintError
+
+
+@external("sqlfluff.core.linter.linting_result:LintingResult.discard_fixes_for_lint_errors_in_files_with_tmp_or_prs_errors", PROP)
+class result_discard_fixes:
+    """ASSUMED link (the per-directory method is verified above: dir_discard; LintingResult's loops over self.paths):
+    after the call no lint violation of a file with a template/parse error keeps a fix, so -- for a single-file result
+    with such an error -- no fixable lint violation is left; without such an error nothing changes.  Exercised end to
+    end by the bounded route matrix below."""
+    types = {"self": LintingResult}
+    modifies = ["heap:LintingResult.g_fixable_lint", "heap:LintingResult.g_unfixable_lint"]
+
+    def ensures(self, old):
+        return (implies(c18_single_file(self) and has_tmp_prs(self), self.g_fixable_lint == 0)
+                and implies(not has_tmp_prs(self), self.g_fixable_lint == old.self.g_fixable_lint
+                            and self.g_unfixable_lint == old.self.g_unfixable_lint)
+                and self.g_fixable_lint >= 0 and self.g_unfixable_lint >= old.self.g_unfixable_lint)
+
+
+@external("sqlfluff.core.linter.linting_result:LintingResult.num_violations", PROP)
+class result_num_violations:
+    """ghost view: num_violations(types=SQLLintError, fixable=True) is the number of live lint violations that still
+    carry fixes (g_fixable_lint); any other query is an arbitrary non-negative number"""
+    types = {"self": LintingResult}
+    ret = INT
+
+    def ensures(self, types=None, fixable=None, result=0):
+        return result >= 0 and implies(c18_types_lint(types) and fixable is True, result == self.g_fixable_lint)
+
+
+@external("sqlfluff.core.linter.linted_file:LintedFile.get_violations", PROP)
+class file_get_violations:
+    types = {"self": LintedFile}
+    ret = SINK
+
+    def ensures(self, rules=None, types=None, filter_ignore=True, filter_warning=True, warn_unused_ignores=False,
+                fixable=None, result=None):
+        return True
+
+
+@external("sys:exit", PROP)
+class sys_exit:
+    types = {"code": INT}
+    params = ["code"]
+    raises = {"SystemExit": None}
+
+    def ensures(code):
+        return False          # never returns
+
+
+@external("io:read", PROP)
+class stdin_read:
+    types = {}
+    params = []
+    ret = Text
+
+    def ensures(result):
+        return True
+
+
+@contract("sqlfluff.cli.commands:_handle_unparsable", PROP)
+class handle_unparsable:
+    types = {"fix_even_unparsable": BOOL, "initial_exit_code": INT, "linting_result": LintingResult, "formatter": SINK,
+             "tmp_prs_errors_by_file": SINK, "file_errors": SINK, "record_errors": SINK, "error": SINK,
+             "code": SINK, "description": SINK, "line_no": SINK, "line_pos": SINK}
+    ret = INT
+    modifies = ["heap:LintingResult.g_fixable_lint", "heap:LintingResult.g_unfixable_lint"]
+
+    def requires(fix_even_unparsable, initial_exit_code, linting_result, formatter):
+        return counters_ok(linting_result) and linting_result.g_fixable_lint >= 0 and linting_result.g_unfixable_lint >= 0
+
+    def ensures(fix_even_unparsable, initial_exit_code, linting_result, formatter, result, old):
+        # unless fixing unparsable files is enabled: a (single) file with ANY template/parse error -- even a suppressed
+        # one -- is left with no applicable fix; a result without such errors is not touched
+        return (implies(not fix_even_unparsable and c18_single_file(linting_result) and has_tmp_prs(linting_result),
+                        linting_result.g_fixable_lint == 0)
+                and implies(fix_even_unparsable or not has_tmp_prs(linting_result),
+                            linting_result.g_fixable_lint == old.linting_result.g_fixable_lint)
+                and linting_result.g_fixable_lint >= 0)
+
+    def inv_1(linting_result):
+        return True
+
+    def inv_2(linting_result):
+        return True
+
+    def inv_3(linting_result):
+        return True
+
+    def inv_4(linting_result):
+        return True
+
+
+@contract("sqlfluff.cli.commands:_stdin_fix#stdout", PROP)
+class stdin_fix_stdout:
+    types = {"linter": Linter, "formatter": SINK, "fix_even_unparsable": BOOL, "stdin_filename": TOpt(Text),
+             "stdout": Text, "stdin": Text, "exit_code": INT, "templater_error": BOOL, "unfixable_error": BOOL,
+             "result": LintingResult}
+    raises = {"SystemExit": None}
+
+    def hint_on_raise(linter, formatter, fix_even_unparsable, stdin_filename, exc_class, stdout, stdin, result):
+        # the function always ends in sys.exit; unless fixing unparsable input is enabled, input with a template/parse
+        # error -- even a suppressed one -- is echoed back unchanged (`stdout` is the text handed to click.echo)
+        return (exc_class == "SystemExit"
+                and implies(not fix_even_unparsable and has_tmp_prs(result), stdout == stdin))
+
+    def ensures(linter, formatter, fix_even_unparsable, stdin_filename):
+        return False          # never returns normally
+
+
+# ------------------------------------------------------------------ the fix loop's loop-limit rollback (region contract)
+# Linter.lint_fix_parsed is ~250 lines (rule crawling, fix application); the statements that run when the fix loop hits
+# its limit are the tail of the `for loop in range(...)` loop's else-branch.  pyvc extracts that range from the real
+# source on every run and verifies it as a function of the locals it reads.
+Tree = TOpaque("BaseSegment")
+Mask = TOpaque("IgnoreMaskOpt")
+Timings = TOpaque("RuleTimings")
+
+
+@contract("sqlfluff.core.linter.linter:Linter.lint_fix_parsed#loop-limit-rollback", PROP)
+class loop_limit_rollback:
+    region = ("for violation in initial_linting_errors:", None)
+    # `tree` (the working tree, with fixes applied) is not read by the unchanged code: it is declared so that an edit handing
+    # IT back instead of the saved tree is decided here (a different, arbitrary tree) rather than reported as unbound
+    region_params = ["initial_linting_errors", "save_tree", "ignore_mask", "rule_timings", "tree"]
+    types = {"initial_linting_errors": TList(SQLBaseErrorF), "save_tree": Tree, "ignore_mask": Mask, "rule_timings": Timings,
+             "tree": Tree}
+    ret = TTuple(Tree, TList(SQLBaseErrorF), Mask, Timings)
+    modifies = ["heap:SQLBaseError.fixes"]
+
+    def ensures(initial_linting_errors, save_tree, ignore_mask, rule_timings, tree, result):
+        # when the fix loop cannot reach a stable result: the tree handed back is the one saved before any fix was
+        # applied (-> the file is left unchanged), the violations handed back are the initial ones, and EVERY lint
+        # violation among them has lost its fixes (-> all reported as unfixable)
+        return (result[0] == save_tree
+                and result[1] == initial_linting_errors
+                and all(implies(is_lint(result[1][j]), len(result[1][j].fixes) == 0) for j in range(len(result[1]))))
+
+    def inv_1(initial_linting_errors, _i):
+        return all(implies(is_lint(initial_linting_errors[j]), len(initial_linting_errors[j].fixes) == 0)
+                   for j in range(0, _i))
+
+
+# ------------------------------------------------------------------ the writes: LintedFile.persist_tree and the lint_paths gate
+# Ghost fields of LintedFile: g_unfiltered_tmp_prs = number of templating/parsing errors counted BEFORE noqa / ignore /
+# warning filtering; g_fixable = number of live violations that still carry fixes; g_writes = number of times the file
+# (or its suffixed sibling) has been written.  The only write is LintedFile._safe_create_replace_file.
+LintedFileW = ref_class("sqlfluff.core.linter.linted_file:LintedFile", encoding=Text, g_unfiltered_tmp_prs=INT,
+                        g_fixable=INT, g_writes=INT)
+ref_class("sqlfluff.core.linter.linter:Linter", formatter=TOpt(SINK))
+from sqlfluff.core.linter.linted_file import TMP_PRS_ERROR_TYPES as _TMP_PRS  # noqa: E402
+from sqlfluff.core.errors import SQLParseError as _SQLParseError  # noqa: E402
+
+
+@spec
+def c18_types_tmp_prs(types):
+    """the `types` argument selects exactly the templating and parsing errors"""
+    return types is not None and types is _TMP_PRS
+
+
+@external("sqlfluff.core.linter.linted_file:LintedFile.num_violations", PROP)
+class file_num_violations:
+    """ghost view of two counts (their meaning in terms of the violation list: LintedFile.get_violations, C20): only the
+    query with BOTH filters off is the unfiltered template/parse error count; only fixable=True with warnings kept is
+    the number of violations that still carry fixes; any other query is an arbitrary non-negative number"""
+    types = {"self": LintedFile}
+    ret = INT
+
+    def ensures(self, types=None, filter_ignore=True, filter_warning=True, fixable=None, result=0):
+        return (result >= 0
+                and implies(c18_types_tmp_prs(types) and not filter_ignore and not filter_warning
+                            and fixable is None, result == self.g_unfiltered_tmp_prs)
+                and implies(types is None and filter_ignore and not filter_warning and fixable is True,
+                            result == self.g_fixable))
+
+
+@external("sqlfluff.core.linter.linted_file:LintedFile._safe_create_replace_file", PROP)
+class safe_create_replace_file:
+    """THE WRITE (temp file + os.replace): some file's write counter changes"""
+    types = {"input_path": Text, "output_path": Text, "write_buff": Text, "encoding": Text}
+    modifies = ["heap:LintedFile.g_writes"]
+
+    def ensures(input_path, output_path, write_buff, encoding):
+        return True
+
+
+@external("posixpath:splitext", PROP)
+class splitext:
+    types = {"p": Text}
+    ret = TTuple(Text, Text)
+
+    def ensures(p, result):
+        return True
+
+
+@contract("sqlfluff.core.linter.linted_file:LintedFile.persist_tree", PROP)
+class persist_tree:
+    types = {"self": LintedFile, "suffix": Text, "formatter": TOpt(SINK), "write_buff": Text, "success": BOOL,
+             "fname": Text, "root": Text, "ext": Text, "result_label": Text}
+    ret = BOOL
+    modifies = ["heap:LintedFile.g_writes"]
+
+    def ensures(self, suffix, formatter, result, old):
+        # a file none of whose violations carries a fix (that is what discarding the fixes / the loop-limit rollback
+        # leave behind) is never written
+        return implies(self.g_fixable <= 0, self.g_writes == old.self.g_writes)
+
+
+@contract("sqlfluff.core.linter.linter:Linter.lint_paths#apply-fixes-gate", PROP)
+class lint_paths_gate:
+    region = ("if apply_fixes:", "progress_bar_files.update(n=1)")
+    region_params = ["self", "apply_fixes", "linted_file", "fix_even_unparsable", "fixed_file_suffix"]
+    types = {"self": Linter, "apply_fixes": BOOL, "linted_file": LintedFile, "fix_even_unparsable": BOOL,
+             "fixed_file_suffix": Text, "num_tmp_prs_errors": INT}
+    modifies = ["heap:LintedFile.g_writes"]
+
+    def ensures(self, apply_fixes, linted_file, fix_even_unparsable, fixed_file_suffix, old):
+        # unless fixing unparsable files is explicitly enabled, a file with a templating or parsing error -- counted
+        # before any suppression -- is not written by lint_paths(apply_fixes=True)
+        return implies(not fix_even_unparsable and linted_file.g_unfiltered_tmp_prs > 0,
+                       linted_file.g_writes == old.linted_file.g_writes)
+
+
+# ------------------------------------------------------------------ non-SMT parts (contracts/c18_bounded.py)
+from . import c18_bounded as _c18b  # noqa: E402
+
+EXTRA = list(_c18b.EXTRA)
+BOUNDED = list(_c18b.BOUNDED)
+
+MUTANTS += [
+    # --- the stdin route / the CLI gate
+    ("stdin_fixable_flag_before_discard", "sqlfluff/cli/commands.py",
+     "    exit_code = _handle_unparsable(fix_even_unparsable, exit_code, result, formatter)\n\n    if result.num_violations(types=SQLLintError, fixable=True) > 0:\n        stdout =",
+     "    fixable_error = result.num_violations(types=SQLLintError, fixable=True) > 0\n    exit_code = _handle_unparsable(fix_even_unparsable, exit_code, result, formatter)\n\n    if fixable_error:\n        stdout ="),
+    ("stdin_any_lint_violation_triggers_fix_string", "sqlfluff/cli/commands.py",
+     "    if result.num_violations(types=SQLLintError, fixable=True) > 0:\n        stdout =",
+     "    if result.num_violations(types=SQLLintError) > 0:\n        stdout ="),
+    ("handle_unparsable_no_discard", "sqlfluff/cli/commands.py",
+     "    linting_result.discard_fixes_for_lint_errors_in_files_with_tmp_or_prs_errors()\n", "    pass\n"),
+    ("handle_unparsable_discard_only_when_live_errors", "sqlfluff/cli/commands.py",
+     "    linting_result.discard_fixes_for_lint_errors_in_files_with_tmp_or_prs_errors()\n",
+     "    if num_filtered_errors:\n        linting_result.discard_fixes_for_lint_errors_in_files_with_tmp_or_prs_errors()\n"),
+    # --- Linter.lint_paths' apply_fixes gate and the write itself
+    ("lint_paths_gate_filtered_count", "sqlfluff/core/linter/linter.py",
+     "                        types=TMP_PRS_ERROR_TYPES,\n                        filter_ignore=False,\n                        filter_warning=False,\n                    )\n                    if fix_even_unparsable",
+     "                        types=TMP_PRS_ERROR_TYPES,\n                    )\n                    if fix_even_unparsable"),
+    ("lint_paths_gate_always_open", "sqlfluff/core/linter/linter.py",
+     "                    if fix_even_unparsable or num_tmp_prs_errors == 0:", "                    if fix_even_unparsable or num_tmp_prs_errors >= 0:"),
+    ("lint_paths_gate_parse_errors_only", "sqlfluff/core/linter/linter.py",
+     "                        types=TMP_PRS_ERROR_TYPES,\n                        filter_ignore=False,\n                        filter_warning=False,\n                    )\n                    if fix_even_unparsable",
+     "                        types=SQLParseError,\n                        filter_ignore=False,\n                        filter_warning=False,\n                    )\n                    if fix_even_unparsable"),
+    ("persist_tree_writes_without_fixable", "sqlfluff/core/linter/linted_file.py",
+     "        if self.num_violations(fixable=True, filter_warning=False) > 0:\n            write_buff, success = self.fix_string()",
+     "        if self.num_violations(fixable=True, filter_warning=False) >= 0:\n            write_buff, success = self.fix_string()"),
+    # --- the loop-limit rollback
+    ("rollback_keeps_fixes", "sqlfluff/core/linter/linter.py",
+     "                        if isinstance(violation, SQLLintError):\n                            violation.fixes = []\n\n                    # Return the original parse tree",
+     "                        if isinstance(violation, SQLLintError):\n                            pass\n\n                    # Return the original parse tree"),
+    ("rollback_returns_current_tree", "sqlfluff/core/linter/linter.py",
+     "                    return save_tree, initial_linting_errors, ignore_mask, rule_timings",
+     "                    return tree, initial_linting_errors, ignore_mask, rule_timings"),
+    ("rollback_skips_first_violation", "sqlfluff/core/linter/linter.py",
+     "                    for violation in initial_linting_errors:\n                        if isinstance(violation, SQLLintError):\n                            violation.fixes = []",
+     "                    for violation in initial_linting_errors[1:]:\n                        if isinstance(violation, SQLLintError):\n                            violation.fixes = []"),
+    ("rollback_main_phase_only", "sqlfluff/core/linter/linter.py",
+     "            else:\n                if fix:\n                    # The linter loop hit the limit",
+     "            else:\n                if fix and phase == \"main\":\n                    # The linter loop hit the limit"),
+    ("save_tree_taken_after_first_pass", "sqlfluff/core/linter/linter.py",
+     "                    if is_first_linter_pass():\n                        initial_linting_errors += linting_errors\n",
+     "                    if is_first_linter_pass():\n                        initial_linting_errors += linting_errors\n                    save_tree = tree\n"),
 ]
